@@ -107,19 +107,21 @@ type Fired struct {
 
 // Result is written to fd 3 when the simulated process ends.
 type Result struct {
-	Exit      int            `json:"exit"`
-	Returned  bool           `json:"returned,omitempty"` // main returned (no explicit Exit)
-	Panic     string         `json:"panic,omitempty"`
-	Stack     string         `json:"stack,omitempty"`
-	Overrun   bool           `json:"overrun,omitempty"` // tick budget exhausted
-	Steps     int            `json:"steps"`
-	MapEvents int            `json:"map_events"`       // events over >=2 keys
-	MapSmall  int            `json:"map_small"`        // iterations over 0/1 keys
-	Trace     []Ev           `json:"trace,omitempty"`  // I/O steps
-	Maps      []MapEv        `json:"maps,omitempty"`   // map-order events
-	Fired     []Fired        `json:"fired,omitempty"`  // configured faults and their fate
-	FS        []Node         `json:"fs"`               // file system after the run
-	Probes    map[string]int `json:"probes,omitempty"` // clock/env/pid reads, unmodelled calls
-	OutBytes  int            `json:"out_bytes"`        // bytes the program wrote to stdout via the shim
-	ErrBytes  int            `json:"err_bytes"`
+	Exit        int            `json:"exit"`
+	Returned    bool           `json:"returned,omitempty"` // main returned (no explicit Exit)
+	Panic       string         `json:"panic,omitempty"`
+	Stack       string         `json:"stack,omitempty"`
+	Overrun     bool           `json:"overrun,omitempty"`      // tick or heap budget exhausted (bounded liveness)
+	OverrunKind string         `json:"overrun_kind,omitempty"` // "ticks" or "memory"
+	Steps       int            `json:"steps"`
+	Ticks       int            `json:"ticks"`            // I/O steps + map iterations (the unit of the liveness budget)
+	MapEvents   int            `json:"map_events"`       // events over >=2 keys
+	MapSmall    int            `json:"map_small"`        // iterations over 0/1 keys
+	Trace       []Ev           `json:"trace,omitempty"`  // I/O steps
+	Maps        []MapEv        `json:"maps,omitempty"`   // map-order events
+	Fired       []Fired        `json:"fired,omitempty"`  // configured faults and their fate
+	FS          []Node         `json:"fs"`               // file system after the run
+	Probes      map[string]int `json:"probes,omitempty"` // clock/env/pid reads, unmodelled calls
+	OutBytes    int            `json:"out_bytes"`        // bytes the program wrote to stdout via the shim
+	ErrBytes    int            `json:"err_bytes"`
 }
